@@ -127,7 +127,14 @@ class Analyzer:
             seen.add(l)
             steps += 1
             if l >= 0 and f.local_name(l):
-                return f.local_name(l)
+                if os.environ.get("VERIF_C05_KEYS_BY_NAME"):
+                    return f.local_name(l)
+                # a named local: described by its container type, never by its source name (renames must not void a line)
+                ty = f.local_ty(l).replace("&mut ", "").replace("&", "").strip()
+                head = ty.split("<")[0].rsplit("::", 1)[-1]
+                inner = ty[ty.index("<") + 1:ty.rindex(">")] if "<" in ty and ">" in ty else ""
+                short = ",".join(x.strip().split("<")[0].rsplit("::", 1)[-1] for x in inner.split(",")[:2]) if inner else ""
+                return "<%s%s>" % (head, ("<" + short + ">") if short else "")
             nxt = None
             # direct def
             for bb, i, s in f.stmts():
@@ -611,7 +618,75 @@ class Analyzer:
             if k_elem and body is not None and not self.is_key_projection(f, fl.node(kp), x, body) \
                     and self.is_value_projection(f, fl.node(kp), x, body):
                 return [Finding("sensitive", "map inversion: key taken from the VALUE part of the element (colliding values: last wins)", f.loc(b))]
+            if k_elem and body is not None:
+                xty = fl.ty(x)
+                if "(&" in xty or "Option<(" in xty:
+                    parts = self.elem_parts(f, fl.node(kp), x, body)
+                    if parts == {"value"}:
+                        return [Finding("sensitive", "map insert keyed by something computed from the VALUE of the iterated entry only "
+                                        "(e.g. a hash of it): entries whose values collide overwrite each other in container order", f.loc(b))]
         return [Finding("clean", "%s on %s" % (name, cont), f.loc(b))]
+
+    def elem_parts(self, f, l, x, body):
+        """Which parts of the iterated (key, value) element a local is computed from, through ANY computation inside the
+        loop body (calls included): subset of {'key', 'value'}."""
+        fl = self.flow(f)
+        tuples = {x}
+        # locals holding the (k, v) tuple itself: payload of the Option returned by next()
+        changed = True
+        while changed:
+            changed = False
+            for b in body:
+                for s in f.blocks[b]["s"]:
+                    if s["pl"]["p"] or fl.node(s["pl"]) in tuples:
+                        continue
+                    for o in rv_operands(s["rv"]):
+                        p = op_place(o)
+                        if p and fl.node(p) in tuples:
+                            flds = [str(e["f"]) for e in p["p"] if isinstance(e, dict) and "f" in e]
+                            dcs = [e["dc"] for e in p["p"] if isinstance(e, dict) and "dc" in e]
+                            if (dcs and flds == ["0"]) or not flds:
+                                tuples.add(fl.node(s["pl"]))
+                                changed = True
+        parts = set()
+        seen = set()
+        todo = [l]
+        while todo:
+            cur = todo.pop()
+            if cur in seen:
+                continue
+            seen.add(cur)
+            for b in body:
+                for s in f.blocks[b]["s"]:
+                    if fl.node(s["pl"]) != cur:
+                        continue
+                    for o in rv_operands(s["rv"]):
+                        p = op_place(o)
+                        if not p:
+                            continue
+                        n = fl.node(p)
+                        flds = [str(e["f"]) for e in p["p"] if isinstance(e, dict) and "f" in e]
+                        dcs = [e["dc"] for e in p["p"] if isinstance(e, dict) and "dc" in e]
+                        if n in tuples:
+                            eff = flds[1:] if (dcs and flds[:1] == ["0"]) else flds
+                            if eff[:1] == ["0"]:
+                                parts.add("key")
+                            elif eff[:1] == ["1"]:
+                                parts.add("value")
+                            continue
+                        todo.append(n)
+                tt = f.blocks[b]["t"]
+                if tt["k"] == "call" and fl.node(tt["dest"]) == cur:
+                    for a in tt["args"]:
+                        p = op_place(a)
+                        if p:
+                            n = fl.node(p)
+                            flds = [str(e["f"]) for e in p["p"] if isinstance(e, dict) and "f" in e]
+                            if n in tuples and flds:
+                                parts.add("key" if flds[-1] == "0" or flds[:1] == ["0"] and len(flds) == 1 else "value" if "1" in flds[:2] else "key")
+                            else:
+                                todo.append(n)
+        return parts
 
     def is_value_projection(self, f, l, x, body):
         """Mirror of is_key_projection: does l come from the `.1` (value) part of a (k, v) element?"""
@@ -905,6 +980,13 @@ def outer_mut_other(outer_mut, x, f, fl):
 
 
 # ----------------------------------------------------------------------------
+def key_fn(f):
+    """Function part of a key: closure indices shift when closures are added or removed, so they are not part of it."""
+    if os.environ.get("VERIF_C05_KEYS_BY_NAME"):
+        return f.path
+    return re.sub(r"\{closure#\d+\}", "{closure}", f.path)
+
+
 def load_table():
     p = os.path.join(VERIF, "tables", "hash_order.json")
     if os.path.exists(p):
@@ -925,7 +1007,7 @@ def check(prog, R, tier, compile_reach=None):
     site_rows = []
     for f, bb, t in srcs:
         recv = A.describe_receiver(f, t)
-        base = "R05.a|%s|%s.%s" % (f.path, recv, last_seg(callee_of(t)))
+        base = "R05.a|%s|%s.%s" % (key_fn(f), recv, last_seg(callee_of(t)))
         seen_keys[base] += 1
         key = base if seen_keys[base] == 1 else "%s#%d" % (base, seen_keys[base])
         fl = A.flow(f)
@@ -972,7 +1054,7 @@ def check(prog, R, tier, compile_reach=None):
                                                   "fmt::Debug>::fmt", "fmt::Debug::fmt", "serde_json::ser")):
                 continue
             nser += 1
-            key = "R05.a|%s|serialize:%s" % (f.path, last_seg(c))
+            key = "R05.a|%s|serialize:%s" % (key_fn(f), last_seg(c))
             if key in table:
                 used_table.add(key)
                 R.ob("R05.a", key, f.loc(bb), "table: %s — %s" % (table[key]["class"], table[key]["reason"]), fn=f.path)
@@ -1078,7 +1160,7 @@ def check_digest_order(prog, A, R, table, used_table):
             keyed_by_digest = "byte-string keys (names/digests may contain generated names)"
         n_src += 1
         recv = A.describe_receiver(f, t)
-        key = "R05.b|%s|%s.%s" % (f.path, recv, last_seg(callee_of(t)))
+        key = "R05.b|%s|%s.%s" % (key_fn(f), recv, last_seg(callee_of(t)))
         A.last_sorts = []
         findings = A.classify_stream(f, [fl.node(t["dest"])], 0, "digest-ordered stream")
         sens = [x for x in findings if x.cls == "sensitive"]
